@@ -182,7 +182,7 @@ func (l *Lexer) lexIdentifier(currentChar rune) {
 		}
 
 		if !isIdentifierChar(char) {
-			if strings.Contains(buf.String(), ":\"") && char != '\n' && char != '"' {
+			if strings.Contains(buf.String(), ":\"") && char != '\n' && char != '"' && char != 0 {
 				buf.WriteRune(char)
 				continue
 			}
